@@ -49,6 +49,7 @@ type FuncContract struct {
 	Requires  []*Clause
 	Ensures   []*Clause
 	Lets      []*LetDef
+	SpawnSets []*GhostSet // "spawnset loc = expr": ghost assignments performed where the function is started with a go statement
 	GhostSets []*GhostSet // ghost assignments performed at the normal exit (ghost code of the contract)
 	Modifies  []Expr
 	ModAll    bool
@@ -198,7 +199,7 @@ type ContractDB struct {
 var clauseRe = regexp.MustCompile(`^(requires|ensures|invariant|assert)(\?)?(\[[^\]]*\])?(!)?\s*(.*)$`)
 
 var topKeywords = map[string]bool{"libkeeps": true, "frameset": true, "shared": true, "funcalias": true, "libframe": true, "enumerates": true, "callsites": true, "zeroglobal": true, "constglobal": true, "writes": true, "covers": true, "func": true, "ext": true, "iface": true, "spec": true, "ghost": true, "axiom": true, "sealed": true, "lemma": true, "pure": true, "class": true, "trusted": true}
-var subKeywords = map[string]bool{"ghostset": true, "property": true, "flags": true, "requires": true, "ensures": true, "modifies": true, "loop": true, "let": true, "params": true}
+var subKeywords = map[string]bool{"spawnset": true, "ghostset": true, "property": true, "flags": true, "requires": true, "ensures": true, "modifies": true, "loop": true, "let": true, "params": true}
 
 func firstWord(s string) string {
 	s = strings.TrimSpace(s)
@@ -341,7 +342,7 @@ func (db *ContractDB) parseFile(path, pkg string) error {
 				return fail(l, "%v", err)
 			}
 			cur.Lets = append(cur.Lets, &LetDef{strings.TrimSpace(rest[:i]), e, rest})
-		case "ghostset":
+		case "ghostset", "spawnset":
 			i := strings.Index(rest, "=")
 			if cur == nil || i < 0 {
 				return fail(l, "ghostset loc = expr")
@@ -354,7 +355,11 @@ func (db *ContractDB) parseFile(path, pkg string) error {
 			if err != nil {
 				return fail(l, "%v", err)
 			}
-			cur.GhostSets = append(cur.GhostSets, &GhostSet{Loc: le, Val: ve, Src: rest, Line: l.line})
+			if w == "spawnset" {
+				cur.SpawnSets = append(cur.SpawnSets, &GhostSet{Loc: le, Val: ve, Src: rest, Line: l.line})
+			} else {
+				cur.GhostSets = append(cur.GhostSets, &GhostSet{Loc: le, Val: ve, Src: rest, Line: l.line})
+			}
 		case "modifies":
 			if cur == nil {
 				return fail(l, "modifies outside a contract")
